@@ -60,7 +60,7 @@ def write(verif, prop, tier, seed, results, ann, violations, known_hits, tool_er
             "function_under_contract": j.get("enforce"), "callees_replaced_by_contract": j.get("replace", []),
             "obligations": r["obligations"], "discharged": r["discharged"], "back_end": r.get("backend"),
             "solver_s": round(r.get("solver_s", 0.0), 2), "wall_s": round(r.get("wall_s", 0.0), 1),
-            "obligation_classes": r.get("classes", {}), "reachability_guards": r.get("reach", {}),
+            "obligation_classes": r.get("classes", {}), "reachability_guards": r.get("reach", {}), "loop_body_probes": r.get("lc_probes", {}),
             "known_finding_confirmation": j.get("known_finding"),
             "what": j.get("what", ""),
         })
